@@ -17,7 +17,7 @@ ASSUMPTIONS = [
     "2.x: C11's per-track derived columns (filename / fileType / origin ids) are outside this part (track work-package); this "
     "part covers the Playlist / PlaylistEntity chains, parent and membership references and the AUTOINCREMENT counters",
 ]
-MANIFEST_TEXT = ("Schema 2.x (crate tables): every state reachable through the modelled crate / membership API satisfies the "
+MANIFEST_TEXT = ("Schema 2.x (crate tables): Lean theorem C11V2_reachable_wfRaw — every state reachable through the modelled crate / membership API satisfies the "
                  "executable predicate wfRaw (sibling and entry chains are single acyclic lists covering all rows, parents and "
                  "memberships refer to existing rows, the parent relation is acyclic, ids within the AUTOINCREMENT counters); the "
                  "same predicate is evaluated on the raw rows of the real database after every step, together with PRAGMA "
